@@ -1,5 +1,5 @@
 """C17 — scoped settings restore exactly and never leak across threads."""
-import json, os, sys, threading
+import json, os, sys, threading, zlib
 from harness.lib import tr as trlib
 from harness.translators import scope_defs
 
@@ -42,8 +42,8 @@ G_TAG = {n: i for i, n in enumerate(GETTERS)}
 GETTER_OF = dict(flag='flag', perm='perm', str='str', repr='repr', view='view', ctx='ctx', contextual='contextual', detour='detour',
                  wrappers='detour', timeit='timeit', dyn='dyn', dyng='dyn', loadtypes='loadtypes')
 PROCESS_WIDE = {'dyng', 'loadtypes'}
-KW_NAMES = dict(str=['compact', 'verbose', 'hide_default_values', 'python_format'],
-                repr=['compact', 'verbose', 'hide_default_values', 'python_format'],
+KW_NAMES = dict(str=['compact', 'verbose', 'hide_default_values', 'hide_missing_values'],
+                repr=['compact', 'verbose', 'hide_default_values', 'hide_missing_values'],
                 view=['enable_summary_tooltip', 'collapse_level', 'uncollapse', 'key_style'],
                 ctx=['a', 'b', 'c', 'd'])
 CTX_NAMES = ['x', 'y', 'z']
@@ -287,6 +287,120 @@ class Real:
   def snapshot(self):
     return {json.dumps(g): self.get(g) for g in self.all_getters()}
 
+  # -- behavioural probes: what the settings DO, read without any getter -------------------------------
+  def _probe_objects(self):
+    if not hasattr(self, '_po'):
+      pg = self.P['pg']
+      A = pg.members([('x', pg.typing.Int()), ('y', pg.typing.Int())])(type('ProbeA', (pg.Object,), {}))
+      foo = pg.symbolize(lambda x, y: x + y) if False else None
+      def foo_fn(x, y):
+        return x + y
+      self._po = dict(A=A, foo=pg.symbolize(foo_fn), nested=pg.Dict(x=1, y=pg.Dict(z=2)))
+    return self._po
+
+  def behaviour(self):
+    """Each entry is observed through what the library does, not through the getter of the setting."""
+    P = self.P; pg = P['pg']; po = self._probe_objects()
+    def tryw(f):
+      try:
+        f(); return 'ok'
+      except Exception as e:   # pylint: disable=broad-except
+        return type(e).__name__
+    def tryv(f):
+      try:
+        return f()
+      except Exception as e:   # pylint: disable=broad-except
+        return 'raised ' + type(e).__name__
+    out = {}
+    out['write_unsealed'] = tryv(lambda: tryw(lambda d=pg.Dict(x=1): d.rebind(x=2)))
+    out['write_sealed'] = tryv(lambda: tryw(lambda d=pg.Dict(x=1).seal(): d.rebind(x=2)))
+    out['setattr_writable'] = tryv(lambda: tryw(lambda d=pg.Dict(x=1): setattr(d, 'x', 2)))
+    out['setattr_not_writable'] = tryv(lambda: tryw(lambda d=pg.Dict(x=1, accessor_writable=False): setattr(d, 'x', 2)))
+    def notified():
+      calls = []
+      d3 = pg.Dict(x=1, onchange_callback=lambda u: calls.append(1))
+      tryw(lambda: d3.rebind(x=2))
+      return len(calls)
+    out['notified'] = tryv(notified)
+    out['bad_value'] = tryv(lambda: tryw(lambda d=pg.Dict(x=1, value_spec=pg.typing.Dict([('x', pg.typing.Int())])): d.rebind(x='a')))
+    out['partial_object'] = tryw(lambda: po['A'](x=1))
+    def origin():
+      a = pg.Dict(x=1)
+      c = a.clone()
+      return c.sym_origin is not None and c.sym_origin.source is a
+    out['origin_tracked'] = tryv(origin)
+    def functor():
+      r = po['foo'](1, 2)
+      return isinstance(r, int) and r == 3
+    out['functor_called'] = tryv(functor)
+    out['str_multiline'] = tryv(lambda: '\n' in str(po['nested']))
+    out['repr_multiline'] = tryv(lambda: '\n' in repr(po['nested']))
+    def view():
+      with P['views_base'].view_options() as o:
+        return self.kw_pairs('view', o)
+    out['view_options'] = tryv(view)
+    C = P['contextual']
+    out['contextual_value'] = tryv(lambda: [C.contextual_value(n, None) for n in CTX_NAMES])
+    ex, errors = P['execution'], __import__('pyglove.core.coding.errors', fromlist=['x'])
+    def ev(code):
+      try:
+        return ('value', ex.evaluate(code))
+      except errors.CodeError as e:
+        return ('CodeError', type(e.cause).__name__)
+    out['assign_allowed'] = tryv(lambda: ev('x = 1')[0])
+    out['context_a'] = tryv(lambda: ev('a'))
+    out['constructed'] = tryv(lambda: [self.P['class_id'].get(type(c()), -1) for c in self.P['classes'][:8]])
+    def oneof():
+      r = pg.oneof([10, 20])
+      return r if isinstance(r, int) else 'OneOf'
+    out['oneof'] = tryv(oneof)
+    J = P['json_conversion'].JSONConvertible
+    out['type_by_name'] = tryv(lambda: [self.P['type_id'].get(J.class_from_typename(n)) for n in TYPE_NAMES])
+    return out
+
+  def predicted_behaviour(self, snap):
+    """What behaviour() must return according to the documented meaning of the values the getters return.  A probe that
+    builds symbolic objects is only predicted when the *other* object-level flags are neutral (sealing, accessor
+    writability, type checking and partial values change how objects are constructed, which is not C17's business)."""
+    names = [f['scope'] for f in self.info['flags']]
+    def flag(n, default):
+      return snap[json.dumps(['flag', names.index(n)])] if n in names else default
+    sealed, acc = flag('as_sealed', None), flag('allow_writable_accessors', None)
+    tc, partial = flag('enable_type_check', True), flag('allow_partial', None)
+    neutral = dict(sealed=sealed is None, acc=acc is None, tc=bool(tc), partial=partial is None)
+    def quiet(*own):
+      return all(v for k, v in neutral.items() if k not in own)
+    out = {}
+    if quiet('sealed'):
+      out['write_unsealed'] = 'WritePermissionError' if sealed is True else 'ok'
+      out['write_sealed'] = 'ok' if sealed is False else 'WritePermissionError'
+    if quiet('acc'):
+      out['setattr_writable'] = 'WritePermissionError' if acc is False else 'ok'
+      out['setattr_not_writable'] = 'ok' if acc is True else 'WritePermissionError'
+    if quiet():
+      out['notified'] = 1 if flag('notify_on_change', True) else 0
+      out['origin_tracked'] = bool(flag('track_origin', False))
+      out['functor_called'] = bool(flag('auto_call_functors', None))
+      dm = dict(snap['"detour"'])
+      out['constructed'] = [dm.get(i, i) for i in range(8)]
+      out['oneof'] = snap['"dyn"'] if snap['"dyn"'] is not None else 'OneOf'
+    if quiet('tc'):
+      out['bad_value'] = 'TypeError' if tc else 'ok'
+    if quiet('partial'):
+      out['partial_object'] = 'ok' if partial is True else 'TypeError'
+    out['str_multiline'] = not dict(snap['"str"']).get(0, False)
+    out['repr_multiline'] = not dict(snap['"repr"']).get(0, True)
+    out['view_options'] = snap['"view"']
+    cx = dict(snap['"contextual"'])
+    out['contextual_value'] = [cx[i][0] if i in cx else None for i in range(len(CTX_NAMES))]
+    perm = snap['"perm"']
+    out['assign_allowed'] = 'value' if (perm is None or perm & 1) else 'CodeError'
+    c = dict(snap['"ctx"'])
+    out['context_a'] = ('value', c[0]) if 0 in c else ('CodeError', 'NameError')
+    tt = dict(snap['"loadtypes"'])
+    out['type_by_name'] = [tt.get(i) for i in range(len(TYPE_NAMES))]
+    return out
+
   # -- raw stores, normalised like Model/Scopes.v nrm ------------------------------------------------
   def raw_local(self):
     P = self.P
@@ -488,6 +602,7 @@ class Oracle:
     self.real = real
     self.hits = []        # (signature, what)
     self.fresh = None
+    self.behaviour = True
     self.tainted = set()  # getters already reported as not restored by an inner scope (not blamed on the enclosing ones again)
   def hit(self, sig, what):
     if not any(s == sig for s, _ in self.hits):
@@ -526,6 +641,7 @@ class Oracle:
       with real.make_cm(cm, arg):
         entered = True
         inside = real.snapshot()
+        self.check_behaviour(inside, 'inside `with %s(%r)`' % (name, arg))
         if inside[gk] != exp:
           self.hit('C17/effective/%s/getter-returns-%s' % (name, self.describe_value(inside[gk], exp, before[gk], self.fresh[gk])),
                    'inside `with %s(%r)` (enclosing scopes %r) the getter returns %r, the documented nesting rule gives %r' % (name, arg, [(e[2], e[1]) for e in stack], inside[gk], exp))
@@ -552,6 +668,16 @@ class Oracle:
                  % (name, arg, how, [(e[2], e[1]) for e in stack], k2, after[k2], before[k2]))
     if exc is not None:
       raise exc
+  def check_behaviour(self, snap, where):
+    """The settings are effective: what the library does agrees with the documented meaning of what the getters return."""
+    if not self.behaviour:
+      return
+    got, want = self.real.behaviour(), self.real.predicted_behaviour(snap)
+    for k in want:
+      if got[k] != want[k]:
+        self.hit('C17/behaviour/%s/disagrees-with-getter' % k, '%s the probe %s gives %r, the getters (%s) imply %r'
+                 % (where, k, got[k], {a: b for a, b in snap.items() if b not in (None, [])}, want[k]))
+
   def expected_assert(self, body):
     """An AssertionError may legitimately escape a body that tries to enter a per-thread dynamic_evaluate under a process-wide one."""
     t = body[0]
@@ -560,15 +686,19 @@ class Oracle:
     return False
 
 
-def oracle_single(real, prog):
+def oracle_single(real, prog, behaviour=True):
   o = Oracle(real)
+  o.behaviour = behaviour
   def body():
     o.fresh = real.snapshot()
+    o.check_behaviour(o.fresh, 'in a fresh thread')
     try:
       o.run(prog, [])
     except (Boom, AssertionError):
       pass
     end = real.snapshot()
+    if not o.tainted:
+      o.check_behaviour(end, 'after the whole program')
     for k in end:
       if end[k] != o.fresh[k] and k not in o.tainted:
         o.hit('C17/restore/program-end/%s' % k.replace('"', ''), 'after the whole program the getter %s returns %r instead of %r' % (k, end[k], o.fresh[k]))
@@ -899,6 +1029,7 @@ def run(ctx):
 
   # ---- direct oracle on every case ---------------------------------------------------------------------------
   oracle_evals = 0
+  probe_evals = 0
   def report(hits, case, fails=None):
     for sig, what in hits:
       c = case
@@ -917,7 +1048,10 @@ def run(ctx):
       continue
     done.add(key)
     oracle_evals += 1
-    hits = oracle_single(real, d['prog'])
+    # the behavioural probes cost ~3 ms per scope: on every sweep / corpus program, on a quarter of the random ones (all in the thorough tier)
+    probes = ctx.thorough or not d['kind'].startswith('random') or (zlib.crc32(key.encode()) % 4 == 0)
+    probe_evals += 1 if probes else 0
+    hits = oracle_single(real, d['prog'], behaviour=probes)
     if hits:
       report(hits, dict(kind='single', prog=d['prog']), fails=True)
   for (ps, sched), hits in zip(tcases, thread_hits):
@@ -945,6 +1079,7 @@ def run(ctx):
           for sig, what in oracle_threads(real2, ps, sched, impl_threads(real2, ps, sched)):
             ctx.hit(sig, what, dict(kind='threads', progs=ps, sched=sched, flags=[f['scope'] for f in info2['flags']]))
   ctx.extra['oracle_evaluations'] = oracle_evals
+  ctx.extra['oracle_evaluations_with_behavioural_probes'] = probe_evals
 
   # ---- targeted search when something no longer checks and nothing failed yet --------------------------------------
   if ctx.is_broken() and not ctx.hits:
